@@ -5,6 +5,7 @@ import (
 	"fmt"
 	"io"
 	"log"
+	"math"
 	"runtime"
 	"strconv"
 	"strings"
@@ -228,9 +229,10 @@ func (p *parser) parseComparison() *proto.Query_Expression {
 
 	switch p.peek().typ {
 	case itemPlaceholder:
-		placeholder = decodePlaceholder(p.next().val)
-		if placeholder < 1 {
-			p.errorf("invalid placeholder %d; must be 1 or greater", placeholder)
+		placeholderItem := p.next()
+		placeholder = decodePlaceholder(placeholderItem.val)
+		if placeholder < 1 || placeholder > math.MaxInt32 {
+			p.errorf("invalid placeholder %s; must be between 1 and %d", placeholderItem.val, math.MaxInt32)
 		}
 	case itemValue:
 		value = decodeString(p.next().val)
@@ -271,7 +273,10 @@ func decodePlaceholder(s string) int {
 		return 0
 	}
 
-	i, _ := strconv.Atoi(s[1:])
+	i, err := strconv.Atoi(s[1:])
+	if err != nil {
+		return 0
+	}
 	return i
 }
 
